@@ -66,6 +66,10 @@ def parseI64 (s : Bytes) : Option Int :=
 /-- Go `int64` wrap-around of a mathematical integer. -/
 def wrap64 (z : Int) : Int := (z + 9223372036854775808) % 18446744073709551616 - 9223372036854775808
 
+/-- Milliseconds `SetTimeout(ns)` writes: truncated toward zero, except that a positive duration below
+1 ms is written as 1 (0 would mean "no deadline"; fix 6fdb59c). -/
+def wireMs (ns : Int) : Int := if 0 < ns ∧ Int.tdiv ns 1000000 = 0 then 1 else Int.tdiv ns 1000000
+
 /-- `Timeout()` in nanoseconds, from the request header map: `_timeout` parsed as
 milliseconds times `time.Millisecond` (an int64 multiplication), default 5 s. -/
 def timeoutOf (req : AMap) : Int :=
@@ -251,7 +255,7 @@ def effect (s : State) : Op → Effect × Obs
     | none => (s.noop, .bad)
     | some x =>
       ({ nextOpId := s.nextOpId,
-         write := some (x.req, (hget s.heap x.req).set timeoutHeader (decInt (Int.tdiv ns 1000000))) }, .unit)
+         write := some (x.req, (hget s.heap x.req).set timeoutHeader (decInt (wireMs ns))) }, .unit)
   | .read c q =>
     match view s c with
     | none => (s.noop, .bad)
